@@ -5,6 +5,152 @@ open Conv
 
 let atom = function A a -> a | L _ -> failwith "expected atom"
 let lst = function L l -> l | A a -> failwith ("expected list, got " ^ a)
+let head = function L (A h :: _) -> h | _ -> failwith "expected headed list"
+
+(* ---------- values ---------- *)
+let rec value_of_sx (s : Sexp.t) : value =
+  match s with
+  | L [A "b"; A x] -> VBool (x = "1")
+  | L [A "l"; A x] -> VLong (cz_of_string x)
+  | L [A "s"; A x] -> VString (str_of_atom x)
+  | L [A "e"; A t; A i] -> VEntity (str_of_atom t, str_of_atom i)
+  | L (A "set" :: xs) -> mk_set (List.map value_of_sx xs)
+  | L (A "rec" :: kvs) -> mk_record (List.map kv_of_sx kvs)
+  | L [A "dec"; A x] -> VDecimal (cz_of_string x)
+  | L [A "dt"; A x] -> VDatetime (cz_of_string x)
+  | L [A "dur"; A x] -> VDuration (cz_of_string x)
+  | L [A "ip"; A fam; A addr; A bits] -> VIP (fam = "6", cz_of_string addr, cz_of_string bits)
+  | _ -> failwith ("bad value " ^ to_string s)
+and kv_of_sx = function
+  | L [A k; v] -> (str_of_atom k, value_of_sx v)
+  | s -> failwith ("bad kv " ^ to_string s)
+
+let rec sx_of_value (v : value) : Sexp.t =
+  match v with
+  | VBool b -> L [A "b"; A (if b then "1" else "0")]
+  | VLong z -> L [A "l"; A (string_of_cz z)]
+  | VString s -> L [A "s"; A (atom_of_str s)]
+  | VEntity (t, i) -> L [A "e"; A (atom_of_str t); A (atom_of_str i)]
+  | VSet l -> L (A "set" :: List.map sx_of_value l)
+  | VRecord l -> L (A "rec" :: List.map (fun (k, x) -> L [A (atom_of_str k); sx_of_value x]) l)
+  | VDecimal z -> L [A "dec"; A (string_of_cz z)]
+  | VDatetime z -> L [A "dt"; A (string_of_cz z)]
+  | VDuration z -> L [A "dur"; A (string_of_cz z)]
+  | VIP (v6, a, p) -> L [A "ip"; A (if v6 then "6" else "4"); A (string_of_cz a); A (string_of_cz p)]
+
+let uid_of_sx = function
+  | L [A "e"; A t; A i] -> (str_of_atom t, str_of_atom i)
+  | s -> failwith ("bad uid " ^ to_string s)
+
+(* ---------- expressions ---------- *)
+let errk_of_string = function
+  | "type" -> EType | "overflow" -> EOverflow | "attr" -> EAttr | "tag" -> ETag | "entity" -> EEntity
+  | "unknownfn" -> EUnknownFn | "arity" -> EArity | "ext" -> EExt | "unspecified" -> EUnspecified
+  | s -> failwith ("bad error class " ^ s)
+
+let string_of_errk = function
+  | EType -> "type" | EOverflow -> "overflow" | EAttr -> "attr" | ETag -> "tag" | EEntity -> "entity"
+  | EUnknownFn -> "unknownfn" | EArity -> "arity" | EExt -> "ext" | EUnspecified -> "unspecified"
+  | EFuel -> "model-out-of-fuel"
+
+let pattern_of_sx = function
+  | L (A "pat" :: cs) ->
+    compile_pattern (List.map (function L _ -> None | A a -> Some (str_of_atom a)) cs)
+  | s -> failwith ("bad pattern " ^ to_string s)
+
+let rec expr_of_sx (s : Sexp.t) : expr =
+  let e = expr_of_sx in
+  match s with
+  | L [A "lit"; v] -> ELit (value_of_sx v)
+  | L [A "var"; A x] ->
+    EVar (match x with "principal" -> VPrincipal | "action" -> VAction | "resource" -> VResource
+                     | "context" -> VContext | _ -> failwith "bad var")
+  | L [A "and"; a; b] -> EAnd (e a, e b) | L [A "or"; a; b] -> EOr (e a, e b)
+  | L [A "not"; a] -> ENot (e a) | L [A "neg"; a] -> ENeg (e a)
+  | L [A "add"; a; b] -> EAdd (e a, e b) | L [A "sub"; a; b] -> ESub (e a, e b) | L [A "mul"; a; b] -> EMul (e a, e b)
+  | L [A "eq"; a; b] -> EEq (e a, e b) | L [A "ne"; a; b] -> ENe (e a, e b)
+  | L [A "lt"; a; b] -> ELt (e a, e b) | L [A "le"; a; b] -> ELe (e a, e b)
+  | L [A "gt"; a; b] -> EGt (e a, e b) | L [A "ge"; a; b] -> EGe (e a, e b)
+  | L [A "in"; a; b] -> EIn (e a, e b)
+  | L [A "contains"; a; b] -> EContains (e a, e b)
+  | L [A "containsAll"; a; b] -> EContainsAll (e a, e b)
+  | L [A "containsAny"; a; b] -> EContainsAny (e a, e b)
+  | L [A "isEmpty"; a] -> EIsEmpty (e a)
+  | L [A "access"; a; A k] -> EAccess (e a, str_of_atom k)
+  | L [A "has"; a; A k] -> EHas (e a, str_of_atom k)
+  | L [A "getTag"; a; b] -> EGetTag (e a, e b) | L [A "hasTag"; a; b] -> EHasTag (e a, e b)
+  | L [A "like"; a; p] -> ELike (e a, pattern_of_sx p)
+  | L [A "is"; a; A t] -> EIs (e a, str_of_atom t)
+  | L [A "isIn"; a; A t; b] -> EIsIn (e a, str_of_atom t, e b)
+  | L [A "if"; c; t; f] -> EIf (e c, e t, e f)
+  | L (A "mkset" :: es) -> ESet (List.map e es)
+  | L (A "mkrec" :: kvs) -> ERecord (List.map (function L [A k; x] -> (str_of_atom k, e x) | _ -> failwith "bad mkrec") kvs)
+  | L (A "call" :: A n :: args) -> ECall (str_of_atom n, List.map e args)
+  | L [A "perr"; A k] -> EPartialError (errk_of_string k)
+  | _ -> failwith ("bad expr " ^ to_string s)
+
+(* ---------- store / request / policy ---------- *)
+let store_of_sx = function
+  | L (A "store" :: es) ->
+    List.map (function
+        | L [A "ent"; u; L (A "parents" :: ps); L (A "attrs" :: attrs); L (A "tags" :: tags)] ->
+          (uid_of_sx u, { e_parents = List.map uid_of_sx ps;
+                          e_attrs = rec_of_list (List.map kv_of_sx attrs);
+                          e_tags = rec_of_list (List.map kv_of_sx tags) })
+        | s -> failwith ("bad entity " ^ to_string s)) es
+  | s -> failwith ("bad store " ^ to_string s)
+
+let env_of_sx store req =
+  match req with
+  | L [A "req"; p; a; r; c] ->
+    { e_store = store_of_sx store; e_principal = value_of_sx p; e_action = value_of_sx a;
+      e_resource = value_of_sx r; e_context = value_of_sx c }
+  | s -> failwith ("bad req " ^ to_string s)
+
+let scope_of_sx = function
+  | L [A "all"] -> SAll
+  | L [A "eq"; u] -> SEq (uid_of_sx u)
+  | L [A "in"; u] -> SIn (uid_of_sx u)
+  | L (A "inset" :: us) -> SInSet (List.map uid_of_sx us)
+  | L [A "is"; A t] -> SIs (str_of_atom t)
+  | L [A "isin"; A t; u] -> SIsIn (str_of_atom t, uid_of_sx u)
+  | s -> failwith ("bad scope " ^ to_string s)
+
+let policy_of_sx = function
+  | L (A "policy" :: A id :: A eff :: sp :: sa :: sr :: L (A "conds" :: cs) :: _) ->
+    (id, { p_effect = (eff = "permit"); p_principal = scope_of_sx sp; p_action = scope_of_sx sa;
+           p_resource = scope_of_sx sr;
+           p_conds = List.map (function L [A k; x] -> (k = "when", expr_of_sx x) | _ -> failwith "bad cond") cs })
+  | s -> failwith ("bad policy " ^ to_string s)
+
+let sx_of_res = function
+  | Ok v -> L [A "ok"; sx_of_value v]
+  | Err k -> L [A "err"; A (string_of_errk k)]
+
+(* ---- eval: <store> <req> <expr> ---- *)
+let run_eval payload =
+  match payload with
+  | [store; req; ex] -> sx_of_res (eval (env_of_sx store req) (expr_of_sx ex))
+  | _ -> failwith "eval payload"
+
+let outcome_of_res = function
+  | Ok (VBool true) -> OTrue
+  | Ok (VBool false) -> OFalse
+  | Ok _ -> OErr
+  | Err _ -> OErr
+
+(* ---- authz: <store> <req> (policies policy...) ---- *)
+let run_authz payload =
+  match payload with
+  | [store; req; L (A "policies" :: ps)] ->
+    let en = env_of_sx store req in
+    let pols = List.map policy_of_sx ps in
+    let r = authorize (fun (_, p) -> if p.p_effect then Permit else Forbid)
+        (fun (_, p) -> outcome_of_res (bool_eval en (policy_to_expr p))) pols in
+    let ids l = L (List.map (fun (id, _) -> A id) l) in
+    L [L [A "dec"; A (match r.dec with Allow -> "allow" | Deny -> "deny")];
+       L [A "reasons"; ids r.reasons]; L [A "errors"; ids r.errs]]
+  | _ -> failwith "authz payload"
 
 (* ---- authz-abs: <iter> (pols (p idx permit|forbid t|f|e variant) ...) ---- *)
 let run_authz_abs payload =
@@ -25,4 +171,6 @@ let run_authz_abs payload =
 let run_case kind payload =
   match kind with
   | "authz-abs" -> run_authz_abs payload
+  | "eval" -> run_eval payload
+  | "authz" -> run_authz payload
   | k -> L [A "unsupported"; A k]
